@@ -119,6 +119,43 @@ def run(ctx):
             a, b = pair[0][q], pair[1][q]
             if a[0] == "ok" and b[0] == "ok" and common.is_number(a[1]) and common.is_number(b[1]) and not common.close(a[1], Fraction(float(b[1]))):
                 ctx.violation("permutation-changes-" + q, {"seq": s, "variant": perm}, expected=a, actual=b)
+    # beyond the bound: an object read from a multi-line file of more than 8 kB (judged by TLC like the others) and one residue
+    # occurring more than 2^16 times (harness arithmetic: fractions = counts / length)
+    import os
+    import tempfile
+    big = "".join(ctx.rng.choices(common.AA, k=ctx.pick(9000, 20000)))
+    d = os.path.join(common.VERIF, ".work", "objfiles")
+    os.makedirs(d, exist_ok=True)
+    fd, path = tempfile.mkstemp(dir=d, suffix=".fasta")
+    with os.fdopen(fd, "w") as f:
+        f.write(">a long record\n" + "\n".join(big[i:i + 60] for i in range(0, len(big), 60)) + "\n")
+    try:
+        made = common.call(lambda: lc.SP(sequenceFile=path), limit=120)
+    finally:
+        os.remove(path)
+    if made[0] != "ok":
+        ctx.violation("long-file-object", {"length": len(big)}, expected="an object", actual=made)
+    else:
+        tid += 1
+        trs.append({"tid": tid, "seq": list(big), "after": [{"made": "from a FASTA file of %d residues in 60-column lines" % len(big)}], "ev": events(ctx, big[:50] + "...", all_replies(made[1]))})
+    huge = list("G" * 66000 + "".join(ctx.rng.choices(common.AA, k=3000)))
+    ctx.rng.shuffle(huge)
+    huge = "".join(huge)
+    oh = common.call(lambda: lc.SP(huge), limit=300)
+    if oh[0] == "ok":
+        outs = all_replies(oh[1])
+        ctx.evaluations += 1
+        N = len(huge)
+        want = {"FCR": Fraction(sum(huge.count(c) for c in "KRDE"), N), "NCPR": Fraction(huge.count("K") + huge.count("R") - huge.count("D") - huge.count("E"), N),
+                "fraction_positive": Fraction(huge.count("K") + huge.count("R"), N), "fraction_negative": Fraction(huge.count("D") + huge.count("E"), N)}
+        for q, e in want.items():
+            if q in outs and (outs[q][0] != "ok" or not common.close(outs[q][1], e)):
+                ctx.violation("param-" + q, {"length": N, "composition": "66000 G + 3000 random"}, expected=float(e), actual=outs[q])
+        aa = outs["aa"]
+        if aa[0] != "ok" or not isinstance(aa[1], dict) or any(not common.close(aa[1].get(a, -1), Fraction(huge.count(a), N)) for a in common.AA):
+            ctx.violation("amino-acid-fraction", {"length": N, "composition": "66000 G + 3000 random"}, expected={a: huge.count(a) / N for a in "GKE"}, actual=aa if aa[0] != "ok" else {a: aa[1].get(a) for a in "GKE"})
+    else:
+        ctx.violation("long-object", {"length": len(huge)}, expected="an object", actual=oh)
     verdicts, known = traces.validate(ctx, "Trace_Queries", trs, {"sqrt": []})
     for tr in trs:
         v = verdicts[tr["tid"]]
